@@ -2,11 +2,12 @@
    Directives in force: exactly those of ExtrOcamlBasic. *)
 Require Extraction.
 Require Import ExtrOcamlBasic.
-From V Require Import CF.Oracle.
+From V Require Import CF.Oracle CF.AnalyzerG.
 Extraction Language OCaml.
 
 Separate Extraction
   Syntax.wfb Analyzer.analyze_st Analyzer.no_unreachable_on Analyzer.getter_return_on Analyzer.no_fallthrough_on
   Analyzer.faithful Analyzer.repaired
   SemDecide.prog_reach SemDecide.prog_can_fall_off
+  AnalyzerG.analyzeG
   Oracle.c10_violations Oracle.c11_getter_violation Oracle.c11_case_violations.
